@@ -18,11 +18,20 @@ from mc.flo import runner
 
 def family():
     from mc.flo import families as F
-    yield from F.fam_markers()
+    for label, prog, meta in F.fam_markers():
+        yield label, prog, dict(deep=False)
+    if core.TIER != "quick":
+        for label, prog, meta in F.fam_markers_deep():
+            yield label, prog, dict(deep=True)
 
 
 def on_prog(p, idx, label, prog, meta):
     from mc.flo import families as F
+    if meta.get("deep"):
+        runner.explore_and_check(p, idx, label, prog, mons=(), cmp=runner.cmp_full(fields=(0, 1, 3, 4, 5)),
+                                 alphabet=F.XE_ALPHABET, back_alphabet=[None, {"x": 1}], watch=("x", "env.e0"),
+                                 depth=8, sample_every=7)
+        return
     runner.explore_and_check(p, idx, label, prog, mons=(), cmp=runner.cmp_full(fields=(0, 1, 4, 5)),
                              alphabet=F.X_ALPHABET, back_alphabet=F.X_ALPHABET, watch=("x",),
                              depth=14 if core.TIER == "quick" else 18, sample_every=17,
